@@ -104,19 +104,45 @@ def _expand_chunk(hists):
     ntrans = 0
     local = {}
     samples = []
+    def crashed(stage, hist, op, e):
+        # the code under test raised where the harness does not expect it:
+        # a finding about this history, not a reason to lose the whole run
+        if len(viols) < 200:
+            viols.append((f'step-raised/{stage}/{type(e).__name__}',
+                          f'{stage} raised {e!r} after history '
+                          f'{list(hist) + ([op] if op is not None else [])}',
+                          {'kind': 'history',
+                           'ops': [list(o) for o in hist] + (
+                               [list(op)] if op is not None else [])}))
+
     for hist in hists:
-        base = S.build(hist)
-        for op in list(S.ops(base, hist)):
-            sysm = (S.clone(base) if S.clone is not None else S.build(hist))
-            obs = S.apply(sysm, op)
+        try:
+            base = S.build(hist)
+            oplist = list(S.ops(base, hist))
+        except Exception as e:
+            crashed('build', hist, None, e)
+            continue
+        for op in oplist:
+            try:
+                sysm = (S.clone(base) if S.clone is not None
+                        else S.build(hist))
+                obs = S.apply(sysm, op)
+            except Exception as e:
+                ntrans += 1
+                crashed('apply', hist, op, e)
+                continue
             ntrans += 1
-            S.check(sysm, hist, op, obs,
-                    lambda key, what, case=None: viols.append(
-                        (key, what, case)) if len(viols) < 200 else None)
-            if len(samples) < 2 and len(hist) >= 2 and ntrans % 101 == 1:
-                samples.append(list(hist) + [op])
-            d = digest_of(S.key(sysm))
-            ok = S.expand is None or bool(S.expand(sysm, hist, op))
+            try:
+                S.check(sysm, hist, op, obs,
+                        lambda key, what, case=None: viols.append(
+                            (key, what, case)) if len(viols) < 200 else None)
+                if len(samples) < 2 and len(hist) >= 2 and ntrans % 101 == 1:
+                    samples.append(list(hist) + [op])
+                d = digest_of(S.key(sysm))
+                ok = S.expand is None or bool(S.expand(sysm, hist, op))
+            except Exception as e:
+                crashed('check', hist, op, e)
+                continue
             prev = local.get(d)
             if prev is not None and (prev or not ok):
                 continue        # already reported (as expandable if it is)
